@@ -1,0 +1,73 @@
+#!/usr/bin/env python
+# -*- coding: UTF-8 -*-
+"""
+Verification hooks (off unless the environment variable FORMULAS_VERIF is 1).
+
+Every call site in the library has the shape::
+
+    if _verif.ON: _verif.emit('kind', field=value, ...)
+
+so that with the guard off the cost is one attribute test and nothing else
+changes.  Events are appended to an in-memory list (drained by the harness) and,
+when FORMULAS_VERIF_TRACE names a file, also written there as ndjson.
+"""
+import os
+import json
+
+ON = os.environ.get('FORMULAS_VERIF') == '1'
+_FILE = os.environ.get('FORMULAS_VERIF_TRACE') or None
+_events = []
+_seq = [0]
+
+
+def digest(v, depth=0):
+    """Cheap, deterministic, JSON-able abstraction of a run-time value."""
+    try:
+        import numpy as np
+        import schedula as sh
+        if v is sh.EMPTY:
+            return 'EMPTY'
+        if v is sh.NONE:
+            return 'NONE'
+        if hasattr(v, 'ranges') and hasattr(v, 'values'):
+            try:
+                val = digest(v.value, depth + 1)
+            except Exception as ex:
+                val = 'novalue:%s' % type(ex).__name__
+            return {'rng': [r.get('name') for r in v.ranges], 'v': val}
+        if isinstance(v, np.ndarray):
+            if depth > 3 or v.size > 64:
+                return {'shape': list(v.shape), 'n': int(v.size)}
+            return [digest(x, depth + 1) for x in v.tolist()] \
+                if v.shape else digest(v.tolist(), depth + 1)
+        if isinstance(v, (list, tuple)):
+            if len(v) > 64:
+                return {'len': len(v)}
+            return [digest(x, depth + 1) for x in v]
+        if isinstance(v, (bool, np.bool_)):
+            return bool(v)
+        if isinstance(v, (int, np.integer)):
+            return int(v)
+        if isinstance(v, (float, np.floating)):
+            return repr(float(v))
+        if isinstance(v, str):
+            return 's:' + v
+        return 'o:%s:%s' % (type(v).__name__, v)
+    except Exception as ex:  # Never let a hook break the library.
+        return 'digest-error:%s' % type(ex).__name__
+
+
+def emit(kind, **fields):
+    _seq[0] += 1
+    fields['ev'] = kind
+    fields['seq'] = _seq[0]
+    _events.append(fields)
+    if _FILE:
+        with open(_FILE, 'a') as f:
+            f.write(json.dumps(fields, default=str) + '\n')
+
+
+def drain():
+    out = list(_events)
+    del _events[:]
+    return out
